@@ -399,6 +399,29 @@ def enc_zmk_ob(prog, res, fi):
                       'enc_key = encrypt_key(plain_key, master_key)', chk, rule='C14.e.enc')
 
 
+def hex_prefix_form(p, v):
+    """str value -> (bytes value whose hex rendering it is a slice of, lo, hi | None for 'to the end') or None"""
+    if not (isinstance(v, SeqV) and v.kind == 'str' and len(v.segs) == 1 and isinstance(v.segs[0], Opq)):
+        return None
+    d = v.segs[0].desc
+    lo, hi = Lin.const(0), None
+    for _ in range(4):
+        if isinstance(d, tuple) and len(d) == 4 and d[0] == 'slice':
+            # a slice of a slice composes; only prefixes are of interest here
+            nlo, nhi = Lin.of(d[2]), Lin.of(d[3])
+            lo, hi = lo + nlo, (nhi if hi is None else None)
+            d = d[1]
+            continue
+        if isinstance(d, tuple) and d and d[0] == 'decode' and len(d) > 1 and isinstance(d[1], SeqV) and \
+                len(d[1].segs) == 1 and isinstance(d[1].segs[0], Opq):
+            d = d[1].segs[0].desc
+            continue
+        break
+    if isinstance(d, tuple) and len(d) >= 2 and d[0] == 'hexlify' and isinstance(d[1], SeqV):
+        return d[1], lo, hi
+    return None
+
+
 def kcv_ob(prog, res, fi):
     def entry(it):
         k = it.sym_bytes('binary_key', lo=16, hi=24)
@@ -410,37 +433,35 @@ def kcv_ob(prog, res, fi):
     def chk(p, mode):
         if p.outcome != 'return':
             return [definite(f'calculate_kcv raises {p.value!r}')] if p.outcome == 'raise' else []
+        it = p.interp
         fails = []
         ups = [e for e in p.evs('method') if e.data['name'] == 'update']
         if len(ups) != 1 or not ups[0].data['args']:
-            return [definite(f'{len(ups)} cipher update calls')]
-        data = p.interp.resolve(ups[0].data['args'][0])
+            return [soft(f'{len(ups)} cipher update calls')]
+        data = it.resolve(ups[0].data['args'][0])
         zero = isinstance(data, SeqV) and data.kind == 'bytes' and data.segs and all(
             (isinstance(g, Rep) and g.unit == b'\x00') or (isinstance(g, Lit) and set(g.data) <= {0}) for g in data.segs)
         if not zero:
             fails.append(definite(f'the key check value encrypts {data!r}, not zero bytes', ups[0].node))
         else:
             fails += need_ge0(p.store, data.length() - 8, 'fewer than one block of zeros is encrypted', ups[0].node)
-        v = p.interp.resolve(p.value)
-        ok = False
-        if isinstance(v, SeqV) and v.kind == 'str' and len(v.segs) == 1 and isinstance(v.segs[0], Opq):
-            d = v.segs[0].desc
-            if d == 'hexlify':
-                ok = True      # the whole rendering (requested length not shorter than the ciphertext)
-            elif isinstance(d, tuple) and len(d) == 4 and d[0] == 'slice' and d[1] == 'hexlify':
-                lo, hi = Lin.of(d[2]), Lin.of(d[3])
-                ok = p.store.decide_eq0(lo) is True and p.store.decide_eq0(hi - p.interp.user['n'].lin) is True
-        if not ok:
-            fails.append(definite(f'calculate_kcv returns {v!r}, not the leading kvc_length hex digits of the ciphertext'))
-        hx = [e for e in p.evs('ext-call') if e.data['callee'] in ('binascii.hexlify', 'binascii.b2a_hex')]
-        if len(hx) != 1:
-            fails.append(definite(f'{len(hx)} hexlify calls'))
+        ct = it.resolve(ups[0].data.get('result'))
+        f = hex_prefix_form(p, it.resolve(p.value))
+        if f is None or not isinstance(ct, SeqV):
+            return fails + [soft(f'calculate_kcv returns {p.value!r}: not recognised as a slice of the hex rendering of the ciphertext')]
+        src, lo, hi = f
+        from .. import seqops as _s
+        if _s.seq_eq_structural(it, src, ct) is not True:
+            fails.append(definite(f'the rendered value is {src!r}, not the ciphertext of the zero block'))
+        fails += need_eq0(p.store, lo, f'the key check value starts at hex digit {p.store.canon(lo)} of the ciphertext, not at the first')
+        if hi is not None:
+            # [0:kvc_length], clipped by python when the rendering is shorter
+            n = it.user['n'].lin
+            if p.store.decide_eq0(hi - n) is not True and p.store.decide_eq0(hi - src.length().scale(2)) is not True:
+                fails += need_eq0(p.store, hi - n, f'the key check value ends at hex digit {p.store.canon(hi)}, not at kvc_length')
         else:
-            a = hx[0].data['args'][0] if hx[0].data['args'] else None
-            upd = ups[0].data.get('result')
-            org = getattr(a, 'origin', None)
-            if not (a is upd or (isinstance(org, tuple) and org and org[0] == 'Add' and org[1] is upd)):
-                fails.append(definite(f'the rendered value is {a!r}, not the ciphertext of the zero block', hx[0].node))
+            fails += need_ge0(p.store, it.user['n'].lin - src.length().scale(2),
+                              'the whole rendering is returned although kvc_length asks for fewer digits')
         return fails
     return runs.judge('C14.e', 'the key check value is the leading kvc_length hex digits of the encryption of zero bytes',
                       func_where(fi), "hexlify(encryptor.update(b'\\x00' * 16) + encryptor.finalize())[0:kvc_length]", chk,
